@@ -545,6 +545,53 @@ def main(argv):
                                    "expected": "the statements t1 and t2 give the same result"})
     # the model reproduces the boundary exactly (correspondence on the shapes outside the known class; the F52
     # shapes are counted but not diffed, so that a repair of F52 does not raise an alarm here)
+    # ---------------- (c'') LET-FRESHNESS (LET2 round): the boundary of the freshness hypothesis of C02_let_program.
+    # Witness pairs of the two `_refuted` lemmas (a function of the scope that READS x9 late-bound; one that ASSIGNS x9) must
+    # behave on the implementation as the model says (A and B differ) — they are run through the model too; control pairs
+    # in which x9 is semantically fresh although a function mentions the name as its own parameter / a do-block local /
+    # an unrelated name must satisfy the law (outside the theorem's syntactic hypothesis, inside the law).
+    FRESH = [
+        ("witness_reads_late_bound", "f9 = y => x9 + y\n", "1", "f9(1) + %s", True),
+        ("witness_assigns", "g9 = () => (x9 = 5)\n", "1", "[g9(), %s][0]", True),
+        ("control_unrelated_name", "z9 = 0\nf9 = y => z9 + y\n", "1", "f9(1) + %s", False),
+        ("control_parameter_named_x", "h9 = x9 => x9 + 1\n", "1", "h9(1) + %s", False),
+        ("control_do_block_local", "d9 = () => do {\n  x9 = 5\n  return x9\n}\n", "1", "d9() + %s", False),
+        ("control_captured_own_x", "m9 = (x9 => (y => x9 + y))(2)\n", "1", "m9(1) + %s", False),
+    ]
+    fr_progs = []
+    for _, pre, sub, ctx, _ in FRESH:
+        fr_progs += [pre + (ctx % sub), pre + "x9 = " + sub + "\n" + (ctx % "x9")]
+    fr_out = es.rust_eval(h, fr_progs)
+    fr_stream = {"pairs": len(FRESH), "witnesses_differ": 0, "controls_equal": 0, "model_agree": 0}
+    for k, (nm, pre, sub, ctx, is_witness) in enumerate(FRESH):
+        lo, lv = last(fr_out[2 * k]), last(fr_out[2 * k + 1])
+        if is_witness:
+            if strip_names(lo) == strip_names(lv):
+                res.tie_broken("LET-FRESHNESS: the witness %s of the _refuted lemmas no longer distinguishes `x9 = s; C[x9]` from "
+                               "`C[s]` on the implementation" % nm, "%r -> %s ; %r -> %s" % (fr_progs[2 * k], lo, fr_progs[2 * k + 1], lv))
+            else:
+                fr_stream["witnesses_differ"] += 1
+        elif strip_names(lo) != strip_names(lv):
+            res.violation("binding a subexpression to a fresh name and using the name in its place changed the result "
+                          "(freshness control %s)" % nm,
+                          {"kind": "impl-law", "program": fr_progs[2 * k], "variant": fr_progs[2 * k + 1],
+                           "observed": [lo, lv], "rerun": "./check C02 --replay <this file>"})
+        else:
+            fr_stream["controls_equal"] += 1
+    try:
+        coq5, _ = es.parse_to_coq(h, fr_progs)
+        model5 = es.model_eval(coq5, tag="c02fresh")
+        fa, mism5, _, _ = es.compare(fr_progs, fr_out, model5)
+        fr_stream["model_agree"] = fa
+        if mism5:
+            i5, r5_, m5_ = mism5[0]
+            res.tie_broken("correspondence C02/LET-FRESHNESS: model and implementation disagree on %d of %d programs"
+                           % (len(mism5), len(fr_progs)), "first: %r\nimpl : %s\nmodel: %s" % (fr_progs[i5], r5_, m5_))
+    except c.BrokenTie as e:
+        res.tie_broken(e.what, e.detail)
+    fr_stream["shapes"] = [nm for nm, _, _, _, _ in FRESH]
+    res.streams["LET-FRESHNESS"] = fr_stream
+
     nb_agree = nb_mism = 0
     try:
         stride = 2 if tier == "quick" else 1
